@@ -318,7 +318,7 @@ PROPS["C16"] = simple(
     "loading, normal, selection, command, opening and problem modes. Non-trivial: every geometry and session; geometries are distinct by construction.",
     variants=ui_variants([5, 2]),
     tools=["dumphook"],
-    floor=dict(evaluations=5000, distinct=5000, frames_seen=2000, frames_with_cursor=1000),
+    floor=dict(evaluations=5000, distinct=5000, frames_seen=2000, frames_with_cursor=1000, frames_with_status_line=300),
     timeout=dict(quick=600, thorough=2400),
     technique="runtime monitor: exact line count / centring / adjacent-row oracle over an exhaustively enumerated geometry space, and a line-count + centring monitor on every frame of UI exploration",
     level_text="The geometric space of CenterVertically is enumerated completely within the stated bounds and each result is checked for exact height, centring within one row, the rows above being the "
